@@ -95,3 +95,21 @@ na_reasons = {
            "the contract engine has no model of directory contents, and contracts over os.Rename/Remove/ReadDir would be an assumed file-system model rather than facts about the code; the only per-function piece "
            "(file-name regexp in load.go against FileLocation) needs regular-expression reasoning that the SMT encoding does not have. See DESIGN.md 10.6.",
 }
+
+# sentences appended to the claim texts (functions that came under contract later)
+addenda = {
+    "C01": "Added: grpcServer.SpliceBlob stores the spliced blob in the CAS under the request's (given or computed) digest whose size equals the sum of the chunk sizes, reading each chunk under its own digest; "
+           "maybeInline stores de-inlined bytes under the digest stated next to them.",
+    "C02": "Added: BatchReadBlobs / getBlobResponse look every digest up with its own hash and size from offset 0 (zstd only if the client accepts it), report a blob found with another size as NOT_FOUND, and attach data only to a response "
+           "without an error status; maybeInline fetches inlined bytes under exactly the stated digest.",
+    "C03": "Added: the /status page is built from a single Stats() call and reports its four values in the fields named for them (call-site obligation on the encoded struct).",
+    "C06": "Added: gRPC GetActionResult with dependency checking answers only from GetValidatedActionResult (a nil result becomes an error, inlining runs only on hits); HTTP GET/HEAD of a validated /ac/ entry answer 200 only "
+           "when GetValidatedActionResult returned data.",
+    "C10": "Added: the gRPC FindMissingBlobs handler passes the request's digest list, whole and unchanged, to the cache after checking that no element is nil or malformed (loop invariant), and returns exactly the slice the cache reports.",
+    "C11": "Added: gRPC UpdateActionResult stores, in key space AC and under the (mangled) action digest, only a message for which validate.ActionResult returned nil (validAR holds at the Put), and returns that message; "
+           "the HTTP handler validates the parsed message before it re-marshals and stores it; the hash pattern behind hex64 is pinned.",
+    "C12": "Added: the HTTP backend's Put either hands the reader to an uploader (exactly one channel send containing it) or closes it (exactly one Close) - a full upload queue leaks nothing.",
+    "C13": "Added: startGrpcServer puts the mTLS interceptors (built with the configured allow_unauthenticated_reads) into both interceptor chains whenever a client CA is configured, and the basic-auth interceptors of a GrpcBasicAuth "
+           "built from the htpasswd secrets and the same option whenever an htpasswd file is configured.",
+    "C18": "Added: GetCapabilities advertises exactly the configured limit; SpliceBlob refuses sizes above it before anything is stored; the HTTP handler refuses CAS/raw uploads above it; startGrpcServer hands the configured max_blob_size to the gRPC server.",
+}
